@@ -113,3 +113,10 @@ package golang
 //@   ensures result1 == nil && (t.Category == parser.Category_String || t.Category == parser.Category_Binary) ==> v.Type == parser.ConstType_ConstLiteral || (v.Type == parser.ConstType_ConstIdentifier && cvId(v) != "true" && cvId(v) != "false")
 //@   ensures result1 == nil && t.Category == parser.Category_Enum ==> v.Type == parser.ConstType_ConstInt || v.Type == parser.ConstType_ConstIdentifier
 //@   ensures result1 == nil ==> parser.Category_Bool <= t.Category && t.Category <= parser.Category_Exception && t.Category != parser.Category_Typedef
+
+// A new CodeUtils starts from the documented defaults: default template, default features, initialism correction ON
+// (ignore_initialisms = false) -- also when an earlier instance switched it off on the shared naming-style object.
+//@ func NewCodeUtils(log backend.LogFunc) *CodeUtils
+//@   ensures result != nil && fresh(result) && result.doInitialisms && result.useTemplate == "default" && result.features == defaultFeatures
+//@   ensures ncalls("cu.namingStyle.UseInitialisms") >= 1 && callarg("cu.namingStyle.UseInitialisms", 0)
+//@   modifies *
